@@ -52,7 +52,7 @@ def gen(st, tier):
         from sim import conc
         pre, ch = conc.sched_spec(st["schedule"])
         return {"conc": True, "aes": rbytes(w, 16).hex(), "code": rbytes(w, 8).hex(), "ver": w.randrange(256),
-                "obj": G.bf3_spec(w, max_comps=1, p_enc=0.3, max_len=40), "rng": w.getrandbits(32),
+                "obj": G.bf3_spec(w, max_comps=1, p_enc=0.3, max_len=40, allow_many=False), "rng": w.getrandbits(32),
                 "preempt": pre, "choices": ch}
     pool = _pool(w)
     objs = [G.bf3_spec(w, max_comps=2, p_enc=0.3, max_len=80) for _ in range(2)]
